@@ -10,7 +10,7 @@ ID = 'C03'
 RULE = ('Hypothesis-generated netlists (XOR-rich, all primitives, forks, state elements as pseudo inputs/outputs, open pins) x four independent '
         'non-negative delays per line on a 1/8 grid (float32 or float64 arrays) x capacities (uniform 4/8/16/64 or per-line multiples of 4, biased '
         'small so that overflow happens) x 1..6 lanes x input waveforms with 0..3 transitions (0/1 through s[0..2], more written into the input '
-        'slots of c) x strip_forks. Oracle: own Boolean evaluator: on every line the waveform starts at f(initial values) and its entry parity '
+        'slots of c) x strip_forks x optionally an earlier, different assignment and propagation on the same simulator object. Oracle: own Boolean evaluator: on every line the waveform starts at f(initial values) and its entry parity '
         'ends at f(final values); s[3]/s[6] report the same; every waveform is well formed. non-trivial: some line overflowed or carries >= 3 '
         'transitions; distinct by SHA-1 of the case.')
 ASSUMPTIONS = ['c_reuse off so that every line can be read back after propagation',
@@ -27,7 +27,8 @@ def cases(draw, tier):
     lanes = draw(st.integers(1, 6 if big else 3))
     n = nl['pi'] + len(nl['st'])
     waves = draw(W.input_waves(n, lanes))
-    return dict(nl=nl, lanes=lanes, waves=waves, dpool=draw(W.DELAY_POOL), caps=draw(W.CAPS),
+    pre = draw(st.one_of(st.none(), W.input_waves(n, lanes)))      # an earlier assignment + propagation on the same simulator object
+    return dict(nl=nl, lanes=lanes, waves=waves, pre=pre, dpool=draw(W.DELAY_POOL), caps=draw(W.CAPS),
                 ctime=draw(st.one_of(st.none(), st.integers(0, 600))), f64=draw(st.booleans()), strip_forks=draw(st.booleans()), cuda=draw(st.sampled_from([False, False, False, True])))
 
 
@@ -40,6 +41,9 @@ def run(case, b, c_reuse=False, caps=None, cls=None):
     caps = W.caps_for(nlines, case['caps']) if caps is None else caps
     klass = cls or (WaveSimCuda if case.get('cuda') else WaveSim)
     sim = klass(b.c, delays, sims=case['lanes'], c_caps=caps, c_reuse=c_reuse, strip_forks=case['strip_forks'])
+    if case.get('pre'):         # results must only depend on the current assignment, not on what the simulator did before
+        W.apply_inputs(sim, b, nl, case['pre'])
+        sim.c_prop(); sim.c_to_s()
     W.apply_inputs(sim, b, nl, case['waves'])
     sim.c_prop()
     if case.get('ctime') is None:
@@ -93,6 +97,7 @@ def prop(case):
     if case.get('cuda'): labels.append('cuda_path')
     if not isinstance(case['caps'], int): labels.append('per_line_caps')
     if case['f64']: labels.append('float64_delays')
+    if case.get('pre'): labels.append('simulator_reused')
     return Obs(bool(n_ovl or n_busy), labels, checks=len(b.c.lines) * lanes)
 
 
